@@ -673,4 +673,99 @@ theorem transcode_eq (sch : Schema) (orc : Oracle) (root : MsgDesc) (bd : Bindin
       · simp [shouldParseQuery, hw, popStage]
       · simp [shouldParseQuery, hw, queryStage_eq]
 
+/-! ### order independence -/
+
+theorem srcsOf_eq {sch root} : ∀ (calls : List Call),
+    srcsOf sch root calls =
+      if calls.all (fun c => (srcOf sch root c).isSome) then some (calls.filterMap (fun c => (srcOf sch root c).join)) else none := by
+  intro calls
+  induction calls with
+  | nil => simp [srcsOf]
+  | cons c rest ih =>
+    cases hc : srcOf sch root c with
+    | none => simp [srcsOf, hc]
+    | some r =>
+      cases r with
+      | none => by_cases hall : rest.all (fun c => (srcOf sch root c).isSome) = true <;> simp [srcsOf, hc, ih, hall, Option.join]
+      | some s0 => by_cases hall : rest.all (fun c => (srcOf sch root c).isSome) = true <;> simp [srcsOf, hc, ih, hall, Option.join]
+
+theorem srcsOf_perm {sch root} {calls calls' : List Call} {srcs : List Src} (hp : calls.Perm calls')
+    (hs : srcsOf sch root calls = some srcs) : ∃ srcs', srcsOf sch root calls' = some srcs' ∧ srcs.Perm srcs' := by
+  rw [srcsOf_eq] at hs ⊢
+  by_cases hall : calls.all (fun c => (srcOf sch root c).isSome) = true
+  · have hall' : calls'.all (fun c => (srcOf sch root c).isSome) = true := by
+      rw [List.all_eq_true] at hall ⊢
+      intro c hc
+      exact hall c (hp.symm.subset hc)
+    simp only [hall, if_true, Option.some.injEq] at hs
+    subst hs
+    exact ⟨_, by simp [hall'], hp.filterMap _⟩
+  · simp [hall] at hs
+
+theorem Unrelated.perm {srcs srcs' : List Src} (hp : srcs.Perm srcs') (hu : Unrelated srcs) : Unrelated srcs' := by
+  unfold Unrelated at hu ⊢
+  exact (hp.pairwise_iff (fun {a b} h => by rw [related_comm]; exact h)).mp hu
+
+theorem stageSpec_agree {sch orc m srcs srcs' m1 m2} (hp : srcs.Perm srcs')
+    (h1 : StageSpec sch orc m srcs m1) (h2 : StageSpec sch orc m srcs' m2) : ∀ q, lget m1 q = lget m2 q := by
+  intro q
+  by_cases hex : ∃ s ∈ srcs, s.p.isPrefixOf q = true
+  · obtain ⟨s, hs, hq⟩ := hex
+    obtain ⟨w, hw, hv⟩ := h1.1 s hs
+    obtain ⟨w', hw', hv'⟩ := h2.1 s (hp.subset hs)
+    rw [hw] at hw'
+    simp at hw'
+    subst hw'
+    rw [hv q hq, hv' q hq]
+  · have hno : ∀ s ∈ srcs, s.p.isPrefixOf q = false := by
+      intro s hs
+      cases hpq : s.p.isPrefixOf q
+      · rfl
+      · exact absurd ⟨s, hs, hpq⟩ hex
+    rw [h1.2 q hno, h2.2 q (fun s hs => hno s (hp.symm.subset hs))]
+
+/-- a stage of calls on pairwise unrelated fields outside oneofs does not depend on the order of the calls -/
+theorem popStage_perm {sch orc root m} {calls calls' : List Call} {srcs : List Src} (hp : calls.Perm calls')
+    (hs : srcsOf sch root calls = some srcs) (hu : Unrelated srcs) :
+    (∀ m1 m2, popStage sch orc root m calls = .ok m1 → popStage sch orc root m calls' = .ok m2 → ∀ q, lget m1 q = lget m2 q)
+    ∧ ((∃ m1, popStage sch orc root m calls = .ok m1) ↔ (∃ m2, popStage sch orc root m calls' = .ok m2)) := by
+  obtain ⟨srcs', hs', hps⟩ := srcsOf_perm hp hs
+  have hu' := hu.perm hps
+  refine ⟨?_, ?_, ?_⟩
+  · intro m1 m2 h1 h2
+    exact stageSpec_agree hps (popStage_ok hs hu h1) (popStage_ok hs' hu' h2)
+  · rintro ⟨m1, h1⟩
+    apply popStage_succeeds hs'
+    intro s hsm
+    obtain ⟨w, hw, _⟩ := (popStage_ok hs hu h1).1 s (hps.symm.subset hsm)
+    exact ⟨w, hw⟩
+  · rintro ⟨m2, h2⟩
+    apply popStage_succeeds hs
+    intro s hsm
+    obtain ⟨w, hw, _⟩ := (popStage_ok hs' hu' h2).1 s (hps.subset hsm)
+    exact ⟨w, hw⟩
+
+theorem covered_perm {sch root} {seqs seqs' : List (List Bytes)} (hp : seqs.Perm seqs') (kv : Bytes × List Bytes) :
+    covered sch root seqs kv = covered sch root seqs' kv := by
+  unfold covered hasCommonPrefix
+  exact hp.any_eq
+
+theorem allCalls_perm {sch root bd} {pp pp' : List (Bytes × Bytes)} {q q' : List (Bytes × List Bytes)}
+    (hpp : pp.Perm pp') (hq : q.Perm q') :
+    (allCalls sch root bd ⟨pp, q⟩).Perm (allCalls sch root bd ⟨pp', q'⟩) := by
+  unfold allCalls
+  apply List.Perm.append
+  · exact hpp.map _
+  · simp only
+    split
+    · exact List.Perm.refl _
+    · unfold qCalls
+      have hseq : (filterSeqs bd pp).Perm (filterSeqs bd pp') := by
+        unfold filterSeqs
+        exact List.Perm.append (List.Perm.refl _) (hpp.map _)
+      have hfun : (fun kv => !covered sch root (filterSeqs bd pp) kv) = (fun kv => !covered sch root (filterSeqs bd pp') kv) := by
+        funext kv; rw [covered_perm hseq]
+      rw [hfun]
+      exact (hq.filter _).map _
+
 end GB.C04
